@@ -309,6 +309,7 @@ def strategy_(draw, tier):
         p0 = draw(st.sampled_from(l1_pts))
         back = draw(st.sampled_from([512, 8192, 8192 + 512, cs // 2, cs - 512]))
         spec["requests"].append([max(0, p0 - back), back + draw(st.sampled_from([1, 512, 8192, cs]))])
+    spec["flavours"] = draw(st.booleans())
     return spec
 
 
@@ -319,7 +320,9 @@ def strategy(tier):
 # ---------------------------------------------------------------------------------------------- execution
 def scratch_dir():
     root = os.environ.get("VERIF_SCRATCH") or ("/dev/shm" if os.path.isdir("/dev/shm") else None)
-    return tempfile.mkdtemp(prefix="c07-", dir=root)
+    from hv.core import case_dir
+
+    return case_dir("c07", root)
 
 
 def note_sources(out, model, spec):
